@@ -599,7 +599,9 @@ class Interp:
             return dedupe(out)
         if isinstance(e, (ast.List, ast.Tuple, ast.Set)):
             out = []
-            parts_ = self.eval_list([x.value if isinstance(x, ast.Starred) else x for x in e.elts], st, fr)
+            # (an element that is a list / dict some name or object already holds stays that object inside the display)
+            parts_ = self.eval_list([x.value if isinstance(x, ast.Starred) else x for x in e.elts], st, fr,
+                                    share=[isinstance(x, (ast.Name, ast.Attribute, ast.Call, ast.Subscript)) for x in e.elts] if getattr(d, "heap", False) else ())
             if any(isinstance(x, ast.Starred) for x in e.elts):
                 parts_ = self._forced_list(parts_, fr)   # [*map(...)]: unpacking consumes the iterator
             for r in parts_:
